@@ -20,7 +20,7 @@ ENTRY = {
         ],
         "design_ref": "DESIGN.md 3 (C02), 2.2-2.8",
         "technique": "Coq invariant proof by induction over histories (all chains, all event orders/duplications/DA tags, clean restarts anywhere) + kernel-checked counter-example for completeness + differential correspondence with two real block.Managers under synctest",
-        "level_text": "Machine-checked (Coq 8.16.1, every theorem closed under the global context). C02_safety_full: for EVERY execution function, genesis, valid proposer chain and EVERY history of header/data events of that chain (any order, duplication, DA tags) and clean restarts, SyncLoop never stops, and the node has applied exactly a prefix of the chain: the block stored at every height up to the recorded height is the proposer's (header term, signature, txs), the state is the proposer's state at that height, and the ExecuteTxs calls are exactly blocks 1..j in height order, once each. C02_monotone_full: the applied prefix (hence the height) never shrinks when the history is extended. C02_complete_refuted: kernel-checked witness that the completeness clause as worded is FALSE of the code (known finding incomplete-equal-tx-lists: two blocks with equal non-empty tx lists, second data event dropped as seen), reproduced on the real code by the Go oracle on every run. NOT PROVED: completeness under the guard 'non-empty tx lists pairwise distinct' (no C02_complete_partial theorem; the guard distinct_commitmentsb is defined in the model) — it is only tested: the Go oracle checks on every generated history that the longest fully delivered prefix was applied, and the model agrees with the code on every case.",
-        "level_note": "Trusted: Coq kernel + vm_compute; the model is tied to the code only differentially (160 histories quick / 6400 thorough, chains of 3-13 resp. -41 blocks); symbolic hashes/signatures; DA/P2P ingress loops abstracted to event lists and not executed here; completeness under the distinctness guard is tested, not proved.",
+        "level_text": "Machine-checked (Coq 8.16.1, every theorem closed under the global context), model = the code after the repairs f41125c/5877669/3873d52. C02_safety_full: for EVERY execution function, genesis, valid proposer chain and EVERY history of header/data events of that chain (any order, duplication, DA tags) and clean restarts, SyncLoop never stops, and the node has applied exactly a prefix of the chain: the block stored at every height up to the recorded height is the proposer's (header term, signature, txs), the state is the proposer's state at that height, and the ExecuteTxs calls are exactly blocks 1..j in height order, once each. C02_monotone_full: the applied prefix (hence the height) never shrinks when the history is extended (proved for all histories, crashes included). C02_complete_refuted: kernel-checked witness that the completeness clause as worded is FALSE of the code (known finding incomplete-equal-tx-lists, still open: two blocks with equal non-empty tx lists, second data event dropped as seen), reproduced on the real code by the Go oracle on every run. C02_complete_partial (PROVED, unbounded): under the decidable guard distinct_commitmentsb C (non-empty tx lists pairwise distinct) a history containing the header of every block up to m and the data of every non-empty one, in any order with any duplication and restarts, leaves the node at height >= initial+m-1. What is missing for _full is exactly the guard.",
+        "level_note": "Trusted: Coq kernel + vm_compute; the model is tied to the code only differentially (160 histories quick / 6400 thorough, chains of 3-13 resp. -41 blocks); symbolic hashes/signatures; DA/P2P ingress loops abstracted to event lists and not executed here.",
     },
 }
